@@ -226,6 +226,45 @@ theorem periodConsistency_spec (periods : List Rat) (hn : 0 < periods.length) (h
     · simp [h, min_eq_right (le_of_lt h)]
     · simp [h, min_eq_left (not_lt.1 h)]
 
+/-- the ONE-SIDED period consistencies (`direction='next'` / `'last'`, used when burst edges are recomputed): the ratio with the FOLLOWING resp. the
+PRECEDING period only. -/
+theorem periodConsistency_dir_spec (periods : List Rat) (hn : 0 < periods.length) (hpos : ∀ p ∈ periods, 0 < p) :
+    periodConsistency .next periods =
+      .ok ((List.range periods.length).map fun c =>
+        if c = 0 ∨ c + 1 = periods.length then F.nan
+        else F.fin (min (periods.getD (c + 1) 0) (periods.getD c 0) / max (periods.getD (c + 1) 0) (periods.getD c 0))) ∧
+    periodConsistency .last periods =
+      .ok ((List.range periods.length).map fun c =>
+        if c = 0 ∨ c + 1 = periods.length then F.nan
+        else F.fin (min (periods.getD c 0) (periods.getD (c - 1) 0) / max (periods.getD c 0) (periods.getD (c - 1) 0))) := by
+  have hget : ∀ i, i < periods.length → 0 < periods.getD i 0 := by
+    intro i hi
+    apply hpos
+    rw [List.getD_eq_getElem?_getD, List.getElem?_eq_getElem hi]
+    simp
+  constructor
+  · unfold periodConsistency
+    simp only [Nat.ne_of_gt hn, if_false]
+    congr 1
+    apply List.map_congr_left
+    intro c hc
+    rw [List.mem_range] at hc
+    split
+    · rfl
+    · rename_i hint
+      have hc1 : c + 1 < periods.length := by omega
+      rw [atOff_zero, atOff_one, ratioMinMax_pos _ _ (hget (c+1) hc1)]
+  · unfold periodConsistency
+    simp only [Nat.ne_of_gt hn, if_false]
+    congr 1
+    apply List.map_congr_left
+    intro c hc
+    rw [List.mem_range] at hc
+    split
+    · rfl
+    · rename_i hint
+      rw [atOff_zero, atOff_neg_one, ratioMinMax_pos _ _ (hget c hc)]
+
 theorem flatMap_pair_getD {α β} (f : α → List β) (hf : ∀ x, (f x).length = 2) (d : β) (l : List α)
     (c : Nat) (hc : c < l.length) (k : Nat) (hk : k < 2) :
     (l.flatMap f).getD (2 * c + k) d = (f l[c]).getD k d := by
